@@ -122,12 +122,15 @@ CHECKS.update({
 
 CHECKS.update({
     'C02': dict(
-        text='PARTIAL. generalized.integrator.integrate is symbolically executed with the State fields it reads symbolic; the solver proves the implicit-damping Euler '
-             'velocity equation (M + dt D)(qd\' - qd) = dt (qf_smooth + qf_constraint) (multiplied back through the exact solve), q\' = q + dt qd\' for hinge / slide, and the '
-             'free-joint update pos\' = pos + dt v\', quat\' parallel to quat * dq(local angular velocity) (MuJoCo mj_integratePos semantics).',
-        note='NOT decided: mass matrix == MuJoCo and SPD, bias force, passive force, total smooth force (the first-principles mechanics oracle of the plan was not built); '
-             'actuator force is C11. jax.scipy.linalg.solve is interpreted as the exact solution (Gaussian elimination on the terms).',
-        technique='symbolic execution of jaxprs to z3 real terms; QF_NRA equivalence with MuJoCo\'s Euler-step semantics as terms', design='C02 and section 6.2'),
+        text='The generalized pipeline\'s dynamics terms (dynamics.transform_com + mass.matrix, dynamics.inverse, dynamics._passive, dynamics.forward with actuator.to_tau) are '
+             'symbolically executed on systems loaded by the real mjcf.loads and proved equal to a first-principles mechanics reference (time-jets of every body\'s centre of mass and '
+             'orientation -> mass matrix, virtual-power bias force incl. gravity, passive force; NOT Featherstone\'s algorithms; validated against real mujoco mj_mulM / qfrc_bias / '
+             'qfrc_passive every run) for ALL velocities, controls, root positions and slide coordinates; symmetry and positive definiteness of the mass matrix; and '
+             'integrator.integrate is proved to be MuJoCo\'s semi-implicit Euler step with implicit damping (velocity equation multiplied back through the exact solve, '
+             'q\' = q + dt qd\', free-joint quaternion update with local angular velocity).',
+        note='Tier B: hinge half-angles at exact rational points, exact rational root orientations. Models: free root + s / sh, world hs, world h then s on rotated bodies, single free body '
+             '(quick); more stacks in thorough. jax.scipy.linalg.solve is interpreted as the exact solution. Contacts and limits are C06.',
+        technique='symbolic execution of jaxprs to z3 real terms; QF_NRA equivalence with a first-principles mechanics reference built from time-jets', design='C02 and section 6.2'),
     'C03': dict(
         text='PARTIAL. (1) brax\'s own derivative rules (custom JVPs of safe_arccos / safe_arcsin) are compared, on the gradient jaxprs JAX produces, with JAX\'s built-in rules for '
              'all arguments in (-1,1), at function level and through kinematics of a 2-hinge stack. (2) Finiteness: the gradient jaxpr of a loss on one pipeline step is '
